@@ -55,6 +55,9 @@ def generate(tier, rng):
                         attrs.append('doc = "generated kinds"')
                         # a passed-through attribute with SEVERAL comma-separated arguments
                         attrs.append('strum(prefix = "", ascii_case_insensitive)')
+                        second_strum = (k // 6) % 2 == 1
+                        if second_strum:
+                            attrs.append('strum(serialize_all = "lowercase")')   # a SECOND strum(..) pass-through
                         asserts.append('fn _chk_iter() { let _ = <$D as strum::IntoEnumIterator>::iter().count(); }')
                         # pass-through attribute on a variant: the discriminant's Display must pick it up
                         e.extra['pt_expect'] = {}
@@ -67,7 +70,7 @@ def generate(tier, rng):
                                 e.extra.setdefault('variant_attrs', {})[v.ident] = pre + [v_attr] + more
                                 e.extra['pt_expect'][v.ident] = 'pt-%d' % j
                             else:
-                                e.extra['pt_expect'][v.ident] = v.ident
+                                e.extra['pt_expect'][v.ident] = v.ident.lower() if second_strum else v.ident
                     # always-derived traits
                     asserts.append('fn _needs_std<X: Clone + Copy + core::fmt::Debug + PartialEq + Eq>() {} fn _chk_std() { _needs_std::<$D>(); }')
                     if attrs:
